@@ -299,6 +299,20 @@ pub fn gen_c09(rng: &mut Rng, thorough: bool, emit: &mut dyn FnMut(StreamCase)) 
             // a plain write so large and incompressible that it is accepted only in part, then flush at once
             // (F10: flate2 loses the sync-flush request while output is still pending in the encoder)
             let ops = vec![Op::Write(noise.clone()), Op::Flush, Op::Drain(1), Op::Write(noise[100_000..].to_vec()), Op::Flush, Op::Flush, Op::Drain(1), Op::DropWriter, Op::Drain(1), Op::Poll(1)];
+            // the same with the four bytes a deflate sync flush ends in -- 00 00 ff ff -- as PAYLOAD where the
+            // output drained by the first flush ends (a writer that looks at its own output to decide
+            // whether a flush already synced must not be fooled)
+            {
+                let mut crafted = noise.clone();
+                for off in [31_740usize, 63_486, 63_743] {
+                    crafted[off..off + 4].copy_from_slice(&[0, 0, 0xff, 0xff]);
+                }
+                let ops = vec![Op::Write(crafted), Op::Flush, Op::Drain(1), Op::DropWriter, Op::Drain(1), Op::Poll(1)];
+                let mut c = base(cap, ops, format!("G:c09 partial-write-then-flush sync-marker-in-payload level={} cap={}", level, cap));
+                c.accept_encoding = Some(b"gzip".to_vec());
+                c.gz_level = level;
+                emit(c);
+            }
             let mut c = base(cap, ops, format!("G:c09 partial-write-then-flush level={} cap={}", level, cap));
             c.accept_encoding = Some(b"gzip".to_vec());
             c.gz_level = level;
